@@ -219,7 +219,17 @@ def generator_publications(repo, f):
     first_yield = min(y.lineno for y in yields)
     out = []
 
+    # statements in a `finally` clause run however the generator is left (close(), an exception thrown in at the yield): not "late"
+    in_finally = set()
+    for t in own:
+        if isinstance(t, ast.Try):
+            for st in t.finalbody:
+                for x in ast.walk(st):
+                    in_finally.add(id(x))
+
     def late(n):
+        if id(n) in in_finally:
+            return False
         return n.lineno > first_yield or any(any(x is n for x in ast.walk(l)) for l in loops_with_yield)
     for n, lab, vals in stores:
         if late(n):
@@ -366,8 +376,9 @@ def rule_memo(repo, rid, text, modules, floor=None, positive_fixture=True):
                                 'key is handed out for other data / another autograd state' % (f.qual, what), node=n,
                                 construct='identity-key|' + norm_construct(n, f.node)))
             for n, lab in generator_publications(repo, f):
-                res.add(Finding(rid, f, '`%s` fills %s step by step from inside a generator: a consumer that stops early (exception, break) leaves a '
-                                'truncated entry that every later call reads as complete' % (src(n)[:70], lab), node=n,
+                res.add(Finding(rid, f, '`%s` updates %s at or after a yield point of a generator, outside any `finally`: it runs only if the generator is '
+                                'resumed, so a consumer that stops early (an exception in the with-body / loop body, break) leaves the shared state '
+                                'half-updated for every later call' % (src(n)[:70], lab), node=n,
                                 construct='generator-publish|%s|%s' % (lab, norm_construct(n, f.node))))
         for ci in mi.classes.values():
             for attr, setter, user, node in iterator_attributes(ci):
